@@ -159,6 +159,21 @@ def collect(repo):
                 walk(b, visit)
                 if f.get("storageClass") != "static" and not f.get("inline") and fn.replace(".c", "") in ("skinny128-cipher", "skinny64-cipher", "mantis-cipher", "skinny128-ctr", "skinny64-ctr", "mantis-ctr", "skinny128-parallel", "skinny64-parallel", "mantis-parallel"):
                     facts["guards"][name] = null_guard(f)
+        # the same functions under the other preprocessor branches (shape hashes only): 32-bit words with
+        # aligned access only; byte-order-neutral code without the vector back ends
+        for suffix, xflags in (("#w32u0", ["-DRWEATHER_SKINNY_C_VERIF", "-DSKINNY_VERIF_64BIT=0", "-DSKINNY_VERIF_UNALIGNED=0"]),
+                               ("#be", ["-DRWEATHER_SKINNY_C_VERIF", "-DSKINNY_VERIF_LITTLE_ENDIAN=0", "-DSKINNY_VERIF_VEC128_MATH=0", "-DSKINNY_VERIF_VEC256_MATH=0"])):
+            try:
+                tu2 = TU(path, base + xflags)
+            except TranslateError:
+                continue
+            for name, f in tu2.funcs.items():
+                if body_of(f) is None: continue
+                if not (name.startswith("skinny") or name.startswith("mantis") or name.startswith("_skinny") or name.startswith("_mantis")): continue
+                hsh = hashlib.sha256(shape(f).encode()).hexdigest()[:16]
+                key = (name + "@" + fn if "-vec" in fn else name) + suffix
+                cur = facts["shapes"].get(key, "")
+                if hsh not in cur.split("+"): facts["shapes"][key] = "+".join(sorted([x for x in cur.split("+") if x] + [hsh]))
         # static storage census: file-scope variables defined in this TU's main file
         for name, g in tu.globals.items():
             loc = g.get("loc", {})
